@@ -33,6 +33,27 @@ func NewEvalFunctionNode(funcNode *ast.FunctionNode) (*EvalFunctionNode, error) 
 	return evalFuncNode, nil
 }
 
+func (n *EvalFunctionNode) copyReset() NodeEvaluator {
+	var c *EvalFunctionNode
+	for i, argEvaluator := range n.argsEvaluators {
+		a := copyResetNodeEvaluator(argEvaluator)
+		if a == argEvaluator {
+			continue
+		}
+		if c == nil {
+			c = &EvalFunctionNode{
+				funcName:       n.funcName,
+				argsEvaluators: append([]NodeEvaluator(nil), n.argsEvaluators...),
+			}
+		}
+		c.argsEvaluators[i] = a
+	}
+	if c == nil {
+		return n
+	}
+	return c
+}
+
 func (n *EvalFunctionNode) String() string {
 	args := []string{}
 	for _, argEvaluator := range n.argsEvaluators {
